@@ -247,6 +247,17 @@ pub fn generate(prop: &str, thorough: bool, r: &mut Rng, em: &mut Emit) {
                 em.case_nt("p.c01.history", &[tn.clone(), h.clone(), format!("({})", hist.join(" "))], nt);
             }
         }
+        "C03native" => {
+            // C03 speaks of messages "from native values" too: what the native encoder writes for every corpus value is
+            // decoded by the model's M^-1 at the Rust type's Candid type
+            for (name, v, m) in &pool {
+                let (env, t) = native::types(name).unwrap();
+                let tn = tn_arg(name); let h = sx::hex(m);
+                em.stat("native.wf");
+                let b2 = native::dispatch(name, "encode_of", &[&h]).unwrap_or("err".into());
+                em.case_nt("c01.wf", &[tn.clone(), env_sx(&env), tys_sx(&[t.clone()]), format!("({})", v.sx()), b2], v.size() > 1);
+            }
+        }
         "C08" => {
             for (name, v, m) in &pool {
                 let (env, t) = native::types(name).unwrap();
